@@ -361,7 +361,16 @@ class ApplyLinks(Processor):
                 else:
                     new_interaction = interaction
 
-                interaction_key = (*new_interaction.atoms, new_interaction.meta.get("version", 1))
+                version = new_interaction.meta.get("version", 1)
+                interaction_key = (*new_interaction.atoms, version)
+                # interactions that are already part of the molecule (i.e. stem from
+                # the blocks) and are defined for the same atoms without version tag
+                # (e.g. multiple dihedral terms in an itp file) must not overwrite
+                # each other
+                if not mapping and "version" not in new_interaction.meta:
+                    while interaction_key in self.applied_links[inter_type]:
+                        version += 1
+                        interaction_key = (*new_interaction.atoms, version)
                 self.applied_links[inter_type][interaction_key] = (new_interaction, citations)
 
     def apply_link_between_residues(self, meta_molecule, link, link_to_resid):
